@@ -289,17 +289,17 @@ func checkC19(c *Check) {
 			switch x := n.(type) {
 			case *ast.SelectorExpr:
 				if fieldOf(info, x) == keysF {
-					held := locksHeldAtIP(p, fi, x.Pos())
+					held := locksHeldAtNode(p, fi, x)
 					c.Hold("R1", fi.Name()+":keys", x.Pos(), held[lockF], "the key table is accessed without holding the mutex")
 				}
 			case *ast.SendStmt:
 				if isBucketChan(x.Chan) {
-					held := locksHeldAtIP(p, fi, x.Pos())
+					held := locksHeldAtNode(p, fi, x)
 					c.Hold("R1", fi.Name()+":send", x.Pos(), held[lockF], "a connection is put into a bucket without holding the mutex (it can race with the close of that bucket: send on closed channel)")
 				}
 			case *ast.CallExpr:
 				if id, ok := x.Fun.(*ast.Ident); ok && id.Name == "close" && len(x.Args) == 1 && isBucketChan(x.Args[0]) {
-					held := locksHeldAtIP(p, fi, x.Pos())
+					held := locksHeldAtNode(p, fi, x)
 					c.Hold("R1", fi.Name()+":close", x.Pos(), held[lockF], "a bucket channel is closed without holding the mutex")
 				}
 			}
